@@ -6,7 +6,7 @@ open HmcVerif.C01
 #print axioms propose_reversible
 #print axioms linear_vel_odd
 #print axioms randomised_scales_uniformly
-#print axioms propose_volume_preserving'
+#print axioms propose_volume_preserving_all
 #print axioms boxed_step_reversible
 #print axioms propose_reversible_boxed_diag_partial
 #print axioms reflect_conserves_kinetic
